@@ -49,7 +49,8 @@ OUTSIDE = (
 )
 ASSUMPTIONS = [
     "tree_redaction_any_keys replaces logging_utils._DEFAULT_CLAIM_REDACT_RE by the contract stub "
-    "'search(k) truthy iff k is the designated sensitive key' — justified by item regex_covers_sensitive_names",
+    "'search(k) truthy iff k is the designated sensitive key' — justified by item regex_covers_sensitive_names; its "
+    "replay on un-stubbed code puts a key the LIVE pattern matches (the first listed name) in the designated place",
     "vgi_rpc.access logger := stub that reports INFO enabled (the worker disables real logging); records go to the "
     "deferred sink exactly as under the HTTP transport",
 ]
@@ -224,8 +225,13 @@ class _StubAccessLogger:
     def isEnabledFor(self, level: int) -> bool:  # noqa: N802
         return level >= logging.INFO
 
-    def info(self, fmt: str, message: str, extra: dict | None = None) -> None:
-        self.direct.append((message, extra))
+    def info(self, fmt: str, *a: object, extra: dict | None = None, **k: object) -> None:
+        self.direct.append((a[0] if a else fmt, extra))
+
+    def __getattr__(self, name: str) -> object:
+        from engine.api import HarnessModelError
+
+        raise HarnessModelError(f"access logger used through .{name}; the stub models isEnabledFor/info only")
 
 
 _ACCESS = _StubAccessLogger()
@@ -236,15 +242,19 @@ _STUBS_LOGGER = ["_access_logger := stub logger (isEnabledFor(INFO)=True, DEBUG=
 def _logged_claims(claims: object) -> tuple[int, object]:
     """Run the real _emit_access_log with *claims* on the auth context; return (#records, extra['claims'] | None)."""
     sink: list = []
+    del _ACCESS.direct[:]
     tok = common._current_access_sink.set(sink)
     try:
         auth = AuthContext(domain="jwt", authenticated=True, principal="alice", claims=claims)  # type: ignore[arg-type]
         _emit("Proto", "m", "unary", "srv1", auth, {}, 1.0, "ok")
     finally:
         common._current_access_sink.reset(tok)
-    if len(sink) != 1:
-        return len(sink), None
-    _message, extra = sink[0]
+    records = sink + _ACCESS.direct  # deferred (HTTP) or direct emission: either way it is what gets logged
+    if len(records) != 1:
+        return len(records), None
+    _message, extra = records[0]
+    if not isinstance(extra, Mapping):
+        return 1, None
     return 1, extra.get("claims")
 
 
@@ -327,14 +337,30 @@ def _check_words(v: int, position: int) -> bool:
     return key in node and node[key] == lu.REDACTED
 
 
-def _claims_from_args(args: dict) -> tuple[object, list]:
+def _real_sensitive_key(sk: str) -> str | None:
+    """The tree item designates *sk* as "the sensitive key" through the contract stub.  On un-stubbed code the same
+    role is played by a key the LIVE pattern matches: *sk* itself if it does, else the first listed name that does."""
+    if _LIVE_RE.search(sk):
+        return sk
+    for w in ALL_NAMES:
+        if _LIVE_RE.search(w):
+            return w
+    return None
+
+
+def _claims_from_args(args: dict) -> tuple[object, list, list, str] | None:
+    """(claims, hidden sentinels, path to the dict holding the sensitive key, sensitive key) on real code."""
     if "v" in args:
-        claims, _ = _place(args.get("position", 0), _VARIANTS[args["v"]])
-        return claims, [_SECRET]
-    tree, hidden, _path, _key = _build_tree(
-        args["depth"], args["k2"], args["k3"], args["p1"], args["p2"], args["p3"], args["sens_level"], args["on_sibling"], args["sk"]
+        key = _VARIANTS[args["v"]]
+        claims, path = _place(args.get("position", 0), key)
+        return claims, [_SECRET], path, key
+    key = _real_sensitive_key(args["sk"])
+    if key is None:
+        return None
+    tree, hidden, path, _key = _build_tree(
+        args["depth"], args["k2"], args["k3"], args["p1"], args["p2"], args["p3"], args["sens_level"], args["on_sibling"], key
     )
-    return _plain(tree), hidden
+    return _plain(tree), hidden, path, key
 
 
 def _plain(obj: object) -> object:
@@ -345,17 +371,16 @@ def _plain(obj: object) -> object:
     return obj
 
 
-def _replay_http(args: dict) -> str | None:
+def _http_ping_lines(claims: object, redactor: object = None) -> tuple[object, list[str]]:
     """Un-stubbed: real HTTP app (falcon test client), an authenticator returning the claims, one unary call,
-    the vgi_rpc.access record formatted by the real VgiAccessLogFormatter; is a hidden sentinel in the JSON line?"""
+    the vgi_rpc.access records formatted by the real VgiAccessLogFormatter.  Returns (call result | exception, the
+    JSON lines of the ``ping`` records)."""
     import warnings
     from typing import Protocol
 
     from vgi_rpc.http import http_connect
     from vgi_rpc.http._testing import make_sync_client
     from vgi_rpc.rpc import RpcServer
-
-    claims, hidden = _claims_from_args(args)
 
     class P(Protocol):
         def ping(self, n: int) -> int: ...
@@ -379,23 +404,51 @@ def _replay_http(args: dict) -> str | None:
     logging.disable(logging.NOTSET)
     lg.addHandler(h)
     lg.setLevel(logging.INFO)
+    saved_redactor = lu._claim_redactor
+    result: object = None
     try:
+        if redactor is not None:
+            lu.set_claim_redactor(redactor)  # type: ignore[arg-type]
         with warnings.catch_warnings():
             warnings.simplefilter("ignore")
             client = make_sync_client(RpcServer(P, Impl()), authenticate=authenticate, token_key=b"k" * 32)
-            with http_connect(P, client=client) as proxy:
-                proxy.ping(n=1)
+            try:
+                with http_connect(P, client=client) as proxy:
+                    result = proxy.ping(n=1)
+            except Exception as e:  # noqa: BLE001
+                result = e
     finally:
+        lu.set_claim_redactor(saved_redactor)
         lg.removeHandler(h)
         lg.setLevel(old_level)
         logging.disable(old_disable)
+    return result, [ln for ln in lines if json.loads(ln).get("method") == "ping"]
+
+
+def _replay_http(args: dict) -> str | None:
+    """Judge both halves of the property on the serialized record of the real HTTP app: no hidden sentinel anywhere
+    in the JSON line, and the sensitive key still visible (present in the logged claims at its place)."""
+    built = _claims_from_args(args)
+    if built is None:
+        return None
+    claims, hidden, path, key = built
+    _result, lines = _http_ping_lines(claims)
     for line in lines:
         rec = json.loads(line)
-        if rec.get("method") != "ping":
-            continue
         for sent in hidden:
             if sent in line:
                 return f"access-log line for ping contains {sent!r} (claims logged: {json.dumps(rec.get('claims'))[:300]})"
+        node = rec.get("claims")
+        where = "claims"
+        try:
+            for step in path:
+                node = node[step]
+                where += f"[{step!r}]"
+            visible = isinstance(node, dict) and key in node
+        except (KeyError, IndexError, TypeError):
+            visible = False
+        if not visible:
+            return f"sensitive claim {key!r} is not visible in the access-log record (expected at {where}; claims logged: {json.dumps(rec.get('claims'))[:300]})"
     return None
 
 
@@ -450,6 +503,9 @@ _ORACLE = _SensitiveKeyOracle()
 _MAXD = pick(3, 4)
 _SENT = ["SENTINEL-S0", "SENTINEL-L1", "SENTINEL-L2", "SENTINEL-L3", "SENTINEL-L4"]
 _NK = [("", ""), ("a1", "b1"), ("a2", "b2"), ("a3", "b3"), ("a4", "b4")]  # neutral (spine key, sibling key) per level
+for _a, _b in _NK[1:]:
+    if _LIVE_RE.search(_a) or _LIVE_RE.search(_b):
+        raise RuntimeError("harness neutral tree key is matched by the live redaction pattern")
 
 
 def _build_tree(depth: int, k2: int, k3: int, p1: bool, p2: bool, p3: bool, sens_level: int, on_sibling: bool, sk: str):
@@ -526,14 +582,7 @@ _EXC_TYPES = [ValueError, KeyError, RuntimeError, TypeError, AttributeError, Rec
 _CLAIMS_BY_SIZE = [{}, {"email": _SECRET}, {"email": _SECRET, "sub": _OTHER}]
 
 
-@cond(q=30, t=60, stubs=_STUBS_LOGGER, encoded=[lu.apply_claim_redaction, lu.set_claim_redactor, srv._emit_access_log],
-      bound="redactor raising any of 7 Exception types, before or after reading the claims; claims with 0..2 entries")
-def failing_redactor_drops_claims(kind: int, reads_first: bool, n_claims: int) -> bool:
-    """
-    pre: 0 <= kind < 7 and 0 <= n_claims <= 2
-    post: _
-    """
-    claims = _CLAIMS_BY_SIZE[n_claims]
+def _make_boom(kind: int, reads_first: bool):
     seen: list = []
 
     def boom(c: Mapping) -> dict:
@@ -545,6 +594,33 @@ def failing_redactor_drops_claims(kind: int, reads_first: bool, n_claims: int) -
                 raise exc_type("redactor failed")
         raise Exception("redactor failed")
 
+    return boom
+
+
+def _replay_redactor(args: dict) -> str | None:
+    """Un-stubbed: the raising redactor installed through the public set_claim_redactor, one call through the real
+    HTTP app.  The call must still succeed, and its access-log line must carry no claim (absent or empty object)."""
+    claims = _CLAIMS_BY_SIZE[args["n_claims"]]
+    result, lines = _http_ping_lines(claims, redactor=_make_boom(args["kind"], args["reads_first"]))
+    if isinstance(result, Exception):
+        return f"a raising claim redactor took the request down: {result!r}"
+    for line in lines:
+        rec = json.loads(line)
+        if _SECRET in line or _OTHER in line or rec.get("claims"):
+            return f"redactor raised, yet the access-log record carries claims: {json.dumps(rec.get('claims'))[:300]}"
+    return None
+
+
+@cond(q=30, t=60, stubs=_STUBS_LOGGER, encoded=[lu.apply_claim_redaction, lu.set_claim_redactor, srv._emit_access_log],
+      bound="redactor raising any of 7 Exception types, before or after reading the claims; claims with 0..2 entries",
+      replay=_replay_redactor, signature=lambda args, conc: "C35:failing-redactor-claims-not-dropped")
+def failing_redactor_drops_claims(kind: int, reads_first: bool, n_claims: int) -> bool:
+    """
+    pre: 0 <= kind < 7 and 0 <= n_claims <= 2
+    post: _
+    """
+    claims = _CLAIMS_BY_SIZE[n_claims]
+    boom = _make_boom(kind, reads_first)
     saved = lu._claim_redactor
     lu.set_claim_redactor(boom)
     try:
@@ -554,7 +630,8 @@ def failing_redactor_drops_claims(kind: int, reads_first: bool, n_claims: int) -
         return False  # "a redactor that raises must not take the request down with it"
     finally:
         lu.set_claim_redactor(saved)
-    if len(direct) != 0:
+    if direct:
         return False
-    # exactly one record is still written, and it carries no claims at all
-    return n == 1 and out is None
+    # the record is still written, and it carries no claims at all (key absent, or the empty object the spec's
+    # truncation section uses for "claims dropped")
+    return n == 1 and not out
